@@ -142,6 +142,17 @@ def replay_uniform(shape, weight):
             info.update(sum_w=float(g.weights.sum()), volume=float(vol))
             if abs(g.weights.sum() - vol) > vol * sum(1.0 / s for s in shape) * (1 + 1e-9):
                 bad = True
+            if not bad:
+                # the stated tolerance V*sum(1/n_i) is too wide to separate anything on a 2x3x4 grid: the same axes on a fine grid
+                big = (20, 25, 30)[:dim] if dim == 3 else (40, 50)
+                try:
+                    g2 = cu.UniformGrid(origin, axes, np.array(big), weight=weight)
+                    vol2 = abs(np.linalg.det(axes * np.array(big)[:, None]))
+                    info.update(fine_shape=list(big), fine_sum_w=float(g2.weights.sum()), fine_volume=float(vol2), fine_bound=float(vol2 * sum(1.0 / s_ for s_ in big)))
+                    if abs(g2.weights.sum() - vol2) > vol2 * sum(1.0 / s_ for s_ in big) * (1 + 1e-9):
+                        bad = True
+                except Exception as ex:
+                    info["fine_raised"] = f"{type(ex).__name__}: {ex}"
             return bad, info
     return replay
 
